@@ -250,6 +250,7 @@ pub fn s1(property: &str, scenario: &str, seed: u64, o: &S1Opts) -> Plan {
             variable_size_input: false,
             own_snapshots: c.chance(&[51], 200_000),
             shuffle_submissions: c.chance(&[53], 300_000),
+            checksum_layout: c.range(&[54], 0, 2) as u8,
         },
         nodes,
         links,
@@ -364,6 +365,7 @@ pub fn synctest(property: &str, seed: u64, faulty: bool, invalid: bool) -> Plan 
             variable_size_input: false,
             own_snapshots: c.chance(&[13], 300_000),
             shuffle_submissions: false,
+            checksum_layout: c.range(&[15], 0, 2) as u8,
         },
         nodes: Vec::new(),
         links: Vec::new(),
@@ -561,6 +563,7 @@ fn c05_base_plan(property: &str, seed: u64, b: (u8, usize, usize, bool)) -> Plan
             variable_size_input: false,
             own_snapshots: false,
             shuffle_submissions: false,
+            checksum_layout: 0,
         },
         nodes,
         links,
@@ -887,6 +890,7 @@ fn two_peer_base(property: &str, scenario: &str, seed: u64, c: &Ch, allow_specta
             variable_size_input: false,
             own_snapshots: c.chance(&[119], 200_000),
             shuffle_submissions: c.chance(&[120], 300_000),
+            checksum_layout: c.range(&[121], 0, 2) as u8,
         },
         nodes,
         links,
@@ -1739,6 +1743,7 @@ pub fn c15(property: &str, seed: u64, index: u64) -> Plan {
             variable_size_input: false,
             own_snapshots: false,
             shuffle_submissions: false,
+            checksum_layout: 0,
         },
         nodes,
         links,
